@@ -176,6 +176,7 @@ macro_rules! bin_body {
 crate::harnesses! {
     /// function contract of binary + slow_binary, radix 8, 24 symbolic digits "D.DDD..." (Number built per the stated precondition).
     /// @prop C05
+    /// @tier thorough
     /// @feat pow2 radix
     /// @bound radix 8, 24 significant digits (3 more than the 64-bit mantissa holds)
     /// @fn lexical-parse-float::binary::binary
@@ -235,6 +236,7 @@ crate::harnesses! {
 
     /// radix-32 strings, length <= 6 over {0 1 V . ^ -}: includes zero mantissas with large exponents.
     /// @prop C05 C08
+    /// @tier thorough
     /// @feat pow2 radix
     /// @bound radix 32; input length <= 6 over {0 1 V . ^ -}
     /// @fn lexical-parse-float::parse::parse_complete
@@ -316,6 +318,7 @@ crate::harnesses! {
 
     /// radix 2/4/8/16/32 short inputs (<= 8 digits): exact path `binary()` only.
     /// @prop C05 C10
+    /// @tier thorough
     /// @mem 9
     /// @feat pow2 radix
     /// @bound radix 8, inputs of the shape [1-7].[0-7]{7}
